@@ -23,6 +23,12 @@ CHECKS = {
  'C06': ('dynamic', 'explicit-state breadth-first search over operation histories on the real DynamicPGMIndex, std::map reference model',
          'Same state space as C05; in every distinct state: iteration from begin() and from lower_bound(q) for every q to end() (strictly increasing live keys with current values, terminates), range(lo,hi) for every lo<=hi of the query alphabet equals the map slice exactly, size(), empty().',
          'As C05.', '4/C06'),
+ 'C13': ('multidim', 'bounded-exhaustive enumeration of point multisets x boxes on the real MultidimensionalPGMIndex at the real miss threshold, brute-force oracle',
+         'Every multiplicity vector in {0,1,65}^cells over small cell universes (65 copies force the bigmin skip path), full grids 16x16/32x32/8^3/4^4 with every axis-aligned box, grids with an enumerated window; Dimensions 2..4, uint32/uint64, Epsilon 1..16(64): the sequence produced by range(min,max) up to end() must equal the brute-force filter in Morton order with multiplicity and terminate.',
+         'Own Morton code (self-checked against the library at start-up); coordinates fit the encoder.', '4/C13'),
+ 'C14': ('multidim', 'bounded-exhaustive enumeration of point multisets x query points on the real MultidimensionalPGMIndex, set-membership oracle',
+         'Same multisets as C13; every cell of the universe plus cells just outside it and at the largest encodable coordinate is passed to contains(): true iff stored.',
+         'As C13.', '4/C14'),
  'C15': ('dynamic', 'explicit-state breadth-first search over operation histories on the real DynamicPGMIndex, invariant evaluated in every state',
          'Same state space as C05; in every distinct state the LSM invariants are evaluated through the private members: levels strictly sorted, buffer and level capacities, no data beyond used_levels, every non-empty level at or above the index level owns an index with n == level size, first_key == first item and answering the search contract for all level keys and all alphabet queries, emptied levels own a reset index.',
          'Private members read with -fno-access-control (no hook needed).', '4/C15'),
@@ -81,6 +87,8 @@ def main():
              'kind_free_text': 'bounded-exhaustive enumeration of sorted inputs x queries on the real static indexes, forked workers with crash capture'},
             {'name': 'dynamic', 'path': 'engines/dynamic.cpp', 'serves_properties': ['C05', 'C06', 'C15'],
              'kind_free_text': 'explicit-state BFS over update histories on the real DynamicPGMIndex with canonical-state hashing and std::map reference'},
+            {'name': 'multidim', 'path': 'engines/multidim.cpp', 'serves_properties': ['C13', 'C14'],
+             'kind_free_text': 'bounded-exhaustive enumeration of point multisets and boxes on the real MultidimensionalPGMIndex'},
             {'name': 'segmentation', 'path': 'engines/segmentation.cpp', 'serves_properties': ['C03', 'C04'],
              'kind_free_text': 'bounded-exhaustive enumeration of inputs to the piecewise-linear builder with hook H1 and exact rational oracles'},
         ],
